@@ -1901,7 +1901,7 @@ def extra_checks(rng, tier, cov):
                              'sequence length <= %d' % (5 if tier == 'thorough' else 3))
 
 
-LEVEL_TEXT = ('Machine-checked Coq theorems (49, no axioms) about an executable model of BioSeq._getitem/_slice_locs/rc(update_fts) and '
+LEVEL_TEXT = ('Machine-checked Coq theorems (59, no axioms) about an executable model of BioSeq._getitem/_slice_locs/rc(update_fts) and '
               'FeatureList.slice/rc: extraction by Location/Feature/type name is the 5\'->3\' concatenation of the (reverse-complemented) pieces '
               'with filler/splitter (filler pads ascending plus-strand locations to the range length); under update_fts every surviving location '
               'addresses the same residues inside the window (int, every slice window, Location / single-location Feature windows on both strands), '
@@ -1914,7 +1914,15 @@ LEVEL_TEXT = ('Machine-checked Coq theorems (49, no axioms) about an executable 
               'over the selected sequences in order (first failing sequence decides the exception); BioBasket.rc(update_fts) mirrors every sequence\'s '
               'features about that sequence\'s own length; under gap x update_fts the slice path cuts '
               'features at column bounds, the Location path at the window\'s numbers, and the two agree exactly on aligned windows. '
-              'The model is tied to sugar by differential testing on every run (exhaustive small box, random, gap stream, state-independence histories).')
+              'Feature-list histories (round 7): FeatureList.sort is a stable sort - a permutation, ordered by the key (position = Feature.__lt__, or len), '
+              'ties keeping their order in both directions, several keys = first key decides first (C06_sort_dir_spec, C06_fts_sort_keys); fts.get is '
+              'the head of fts.select, select the sub-list of matching features (C06_get_head_select); the type-name lookup after item assignment / '
+              'delete / append / reverse / insert from the pieces of the list before the edit (C06_get_after_edit, C06_get_after_insert); after sort() it '
+              'is the matching feature at the smallest position, the earliest of those before the sort (C06_get_after_sort); list_set / list_del / '
+              'negative indices / remove (C06_list_edit_spec, C06_norm_idx_spec, C06_remove_first_spec); lookups leave no trace: the answers to any '
+              'continuation of a history are the same with every earlier lookup removed (C06_history_lookups_transparent). '
+              'The model is tied to sugar by differential testing on every run (exhaustive small box, random, gap stream, state-independence histories, '
+              'feature-list histories on 1-3 objects).')
 LEVEL_NOTE = ('Trusted: Coq kernel/vm_compute, translator (G_codes, G_flags), the correspondence harness, CPython str/slice/sorted. '
               'Modelled rather than verified: the functions in MODELLED_FUNCS (every statement of them is executed in the quick tier except '
               'fts.py:738,740 - FeatureList.slice defaults for start/stop None - and fts.py:640 - FeatureList.get with a list of names -, which no '
